@@ -2,6 +2,7 @@
 //! Exit codes: 0 property held on everything explored (known findings printed),
 //! 1 violation (VIOLATION line printed), 2 machinery error (never a verdict).
 mod engine;
+mod c01;
 mod c10;
 mod c12;
 
@@ -48,6 +49,10 @@ fn main() {
     })
   });
   let code = match (id, replay_doc) {
+    ("C01", None) => c01::run("C01", &tier),
+    ("C01", Some(d)) => c01::replay("C01", &d),
+    ("C03", None) => c01::run("C03", &tier),
+    ("C03", Some(d)) => c01::replay("C03", &d),
     ("C10", None) => c10::run(&tier),
     ("C10", Some(d)) => c10::replay(&d),
     ("C12", None) => c12::run(&tier),
